@@ -63,6 +63,12 @@ MUTANTS = [
     ("M18", "mutant", "flip_x does not mirror the glyphs (the / \\ ( ) pairs keep their direction)", A,
      "                    let pos1ch = map_char(pos1ch, flip_tables.get(&pos1ch.get_font_page()).unwrap());\n                    let pos2ch = layer.get_char(pos2);\n                    let pos2ch = map_char(pos2ch, flip_tables.get(&pos2ch.get_font_page()).unwrap());\n                    layer.set_char(pos1, pos2ch);\n                    layer.set_char(pos2, pos1ch);\n                }\n            }\n            let new_layer = Layer::from_layer(layer, area);\n            let op = super::undo_operations::UndoLayerChange::new(self.get_current_layer()?, area.start, old_layer, new_layer);\n            self.push_plain_undo(Box::new(op))\n        } else {\n            Err(EditorError::CurrentLayerInvalid.into())\n        }\n    }\n\n    pub fn flip_y",
      "                    let _ = &flip_tables;\n                    let pos2ch = layer.get_char(pos2);\n                    layer.set_char(pos1, pos2ch);\n                    layer.set_char(pos2, pos1ch);\n                }\n            }\n            let new_layer = Layer::from_layer(layer, area);\n            let op = super::undo_operations::UndoLayerChange::new(self.get_current_layer()?, area.start, old_layer, new_layer);\n            self.push_plain_undo(Box::new(op))\n        } else {\n            Err(EditorError::CurrentLayerInvalid.into())\n        }\n    }\n\n    pub fn flip_y", None),
+    ("M19", "mutant", "flip_y maps only the glyphs that move down (the upper cell's glyph is not mirrored)", A,
+     "                    let pos1 = Position::new(x, area.top() + y);\n                    let pos2 = Position::new(x, area.bottom() - 1 - y);\n                    let pos1ch = layer.get_char(pos1);\n                    let pos1ch = map_char(pos1ch, flip_tables.get(&pos1ch.get_font_page()).unwrap());",
+     "                    let pos1 = Position::new(x, area.top() + y);\n                    let pos2 = Position::new(x, area.bottom() - 1 - y);\n                    let pos1ch = layer.get_char(pos1);", None),
+    ("M20", "mutant", "erase_row forgets the offset of the current layer", E,
+     "        let offset = if let Some(layer) = self.get_cur_layer() { layer.get_offset().y } else { 0 };\n        let y = self.get_caret().get_position().y + offset;\n        let _undo = self.begin_atomic_undo(fl!(crate::LANGUAGE_LOADER, \"undo-delete-selection\"));\n\n        self.set_selection(Rectangle::from_coords(-1_000_000, y, 1_000_000, y + 1))?;\n        self.erase_selection()",
+     "        let y = self.get_caret().get_position().y;\n        let _undo = self.begin_atomic_undo(fl!(crate::LANGUAGE_LOADER, \"undo-delete-selection\"));\n\n        self.set_selection(Rectangle::from_coords(-1_000_000, y, 1_000_000, y + 1))?;\n        self.erase_selection()", None),
     # ---- refactorings / behaviour-preserving changes: must stay silent
     ("N1", "refactoring", "flip_x iterates columns in the outer loop and computes the mirrored column from left + width", A,
      "            for y in area.y_range() {\n                for x in 0..max {\n                    let pos1 = Position::new(area.left() + x, y);\n                    let pos2 = Position::new(area.right() - x - 1, y);",
@@ -76,6 +82,9 @@ MUTANTS = [
     ("N4", "refactoring", "justify_left collects the shifted row first and writes it back afterwards", A,
      "                for x in area.x_range() {\n                    let ch = if x + removed_chars < area.right() {\n                        layer.get_char((x + removed_chars, y))\n                    } else {\n                        AttributedChar::invisible()\n                    };\n                    layer.set_char(Position::new(x, y), ch);\n                }",
      "                let row: Vec<AttributedChar> = area.x_range().map(|x| if x + removed_chars < area.right() { layer.get_char((x + removed_chars, y)) } else { AttributedChar::invisible() }).collect();\n                for (i, ch) in row.into_iter().enumerate() {\n                    layer.set_char(Position::new(area.left() + i as i32, y), ch);\n                }", None),
+    ("N5", "refactoring", "insert_row stores a full-width row of invisible cells instead of an empty row (different storage, same picture)", U,
+     "            let mut insert_row = Line::default();\n            mem::swap(&mut self.inserted_row, &mut insert_row);",
+     "            let mut insert_row = Line::create(layer.get_width());\n            if !self.inserted_row.chars.is_empty() {\n                mem::swap(&mut self.inserted_row, &mut insert_row);\n            }", None),
 ]
 
 
